@@ -84,7 +84,9 @@ func makeSourceTree(rng *rand.Rand, root string, shape int, big bool) []string {
 		perm := rng.Perm(len(names))
 		for i := 0; i < k; i++ {
 			p := filepath.Join(root, "s", names[perm[i]])
-			if i == 0 {
+			if i == 0 && big {
+				mk(p, 40000+rng.Intn(30000), 3) // several full-size legacy chunks of bytes the escape tables protect
+			} else if i == 0 {
 				mk(p, 513+rng.Intn(5000), 3) // always one file full of bytes the escape tables protect
 			} else {
 				mk(p, sizes[rng.Intn(len(sizes))], rng.Intn(4))
@@ -100,6 +102,21 @@ func makeSourceTree(rng *rand.Rand, root string, shape int, big bool) []string {
 		mk(filepath.Join(d, "sub", "deeper", "z.bin"), sizes[rng.Intn(len(sizes))], rng.Intn(4))
 		mk(filepath.Join(d, "sub", "deeper", "zero"), 0, 0)
 		tops = append(tops, d)
+		// directories whose root holds exactly ONE entry (a file / an empty file / an empty directory)
+		switch rng.Intn(3) {
+		case 0:
+			one := filepath.Join(root, "s", "one-file")
+			mk(filepath.Join(one, "only.bin"), sizes[rng.Intn(len(sizes))], rng.Intn(4))
+			tops = append(tops, one)
+		case 1:
+			one := filepath.Join(root, "s", "one-empty-dir")
+			os.MkdirAll(filepath.Join(one, "nothing-here"), 0755)
+			tops = append(tops, one)
+		case 2:
+			one := filepath.Join(root, "s", "one-empty-file")
+			mk(filepath.Join(one, "zero"), 0, 0)
+			tops = append(tops, one)
+		}
 		if rng.Intn(2) == 0 {
 			p := filepath.Join(root, "s", "solo.dat")
 			mk(p, sizes[rng.Intn(len(sizes))], rng.Intn(4))
@@ -169,6 +186,8 @@ type fidCase struct {
 	diffs  []string
 	names  []string
 	tops   []string
+	win    bool // Windows-console framing with one late acknowledgement (c01win.go)
+	winObs string
 }
 
 func (fc *fidCase) String() string { return fc.desc }
@@ -201,7 +220,7 @@ func genFidelity(c *ctx) {
 			escape:    c.rng.Intn(3) == 0,
 			overwrite: c.rng.Intn(3) == 0,
 			compress:  []string{"", "yes", "no", "auto"}[c.rng.Intn(4)],
-			bufsize:   []string{"", "1k", "4k", "1M"}[c.rng.Intn(4)],
+			bufsize:   []string{"", "1k", "4k", "16k", "1M"}[c.rng.Intn(5)],
 			timeout:   10,
 			quiet:     c.rng.Intn(2) == 0,
 			deadline:  40 * time.Second,
@@ -226,7 +245,36 @@ func genFidelity(c *ctx) {
 			fc.cfg.overwrite = false // duplicate names with -y are refused before the transfer starts
 		}
 		fc.chunk = []int{0, 1, 7, 100, 5000}[c.rng.Intn(5)]
+		if fc.big && fc.chunk > 0 && fc.chunk < 100 {
+			fc.chunk = 100 // megabytes in 1-2 byte reads through pipes (and relays) do not finish within the harness deadline
+		}
+		if fc.cfg.overwrite && fc.shape == 0 && fc.chunk > 0 && fc.chunk < 100 {
+			// these cases get the 300-400 KB resume.bin added below: the same limit applies (group seed
+			// 44444: download, 2 relays, 1-2 byte reads ran into the 40 s deadline on the unchanged tree)
+			fc.chunk = 100
+		}
+		// corner configurations that are always part of the run, whatever the random draw
+		switch i {
+		case 0: // legacy protocol 1, binary upload, 16k chunks of bytes the table escapes (escaped chunk > bufsize)
+			fc.cfg.upload, fc.cfg.binary, fc.cfg.proto, fc.cfg.bufsize, fc.cfg.relays, fc.cfg.tunnel = true, true, 0, "16k", 0, false
+			fc.shape, fc.big, fc.cfg.directory, fc.chunk = 0, true, false, 0
+		case 1: // same over protocol 2
+			fc.cfg.upload, fc.cfg.binary, fc.cfg.proto, fc.cfg.bufsize, fc.cfg.relays, fc.cfg.tunnel = true, true, 2, "16k", 0, false
+			fc.shape, fc.big, fc.cfg.directory, fc.chunk = 0, true, false, 0
+		case 2, 3: // archive mode (protocol 4, no overwrite) with one-entry directories among the sources
+			fc.cfg.upload, fc.cfg.proto, fc.cfg.overwrite, fc.cfg.directory, fc.cfg.relays, fc.cfg.tunnel = i == 2, 4, false, true, 0, false
+			fc.shape, fc.chunk = 1, 0
+		case 4, 5, 6: // -d -y onto the remains of an earlier attempt, legacy protocols and the current one
+			fc.cfg.upload, fc.cfg.proto, fc.cfg.overwrite, fc.cfg.directory, fc.cfg.relays, fc.cfg.tunnel = i != 5, []int{2, 0, -1}[i-4], true, true, 0, false
+			fc.shape, fc.chunk = 1, 0
+		case 7, 8: // Windows-console framing ("!\n", readLineOnWindows on the client), one late ack: frames are re-split
+			fc.cfg = e2eCfg{upload: i == 7, proto: -1, bufsize: "64k", compress: "no", timeout: 10, quiet: true, deadline: 40 * time.Second}
+			fc.shape, fc.big, fc.chunk, fc.win = 0, false, 0, true
+		}
 		fc.desc = fmt.Sprintf("%s shape=%d big=%v rechunk=%d seed=%d", describeCfg(fc.cfg), fc.shape, fc.big, fc.chunk, fc.seed)
+		if fc.win {
+			fc.desc += " windows-framing(trigger id ..10, client lines read as a Windows console would, 10th ack 2.3 s late)"
+		}
 		cases[i] = fc
 	}
 	parallelDo(n, 24, func(i int) {
@@ -253,6 +301,49 @@ func genFidelity(c *ctx) {
 			}
 			os.WriteFile(filepath.Join(dest, "resume.bin"), pre, 0644)
 		}
+		if fc.cfg.overwrite && fc.shape == 1 {
+			// -d -y onto what an earlier attempt left behind: some files of the tree already exist at
+			// the destination, longer than / a prefix of / different from the source (every protocol:
+			// the legacy ones truncate when they open, protocol >= 3 goes through the resume exchange)
+			for _, top := range fc.tops {
+				filepath.Walk(top, func(p string, info os.FileInfo, err error) error {
+					if err != nil || !info.Mode().IsRegular() || rng.Intn(2) == 0 {
+						return nil
+					}
+					rel, _ := filepath.Rel(filepath.Dir(top), p)
+					content, _ := os.ReadFile(p)
+					var pre []byte
+					switch rng.Intn(4) {
+					case 0: // longer, same beginning
+						pre = append(append([]byte(nil), content...), fillBytes(rng, 1+rng.Intn(3000), 0)...)
+					case 1: // a prefix
+						pre = append([]byte(nil), content[:len(content)/2]...)
+					case 2: // longer and different from the first byte on
+						pre = fillBytes(rng, len(content)+1+rng.Intn(3000), 1)
+					default: // same length, one byte differs
+						pre = append([]byte(nil), content...)
+						if len(pre) > 0 {
+							pre[len(pre)/2] ^= 0x20
+						}
+					}
+					q := filepath.Join(dest, rel)
+					os.MkdirAll(filepath.Dir(q), 0755)
+					os.WriteFile(q, pre, 0644)
+					return nil
+				})
+			}
+		}
+		if fc.win {
+			p := filepath.Join(root, "s", "win-2MiB.bin")
+			os.MkdirAll(filepath.Dir(p), 0755)
+			os.WriteFile(p, fillBytes(rng, 2<<20, 0), 0644)
+			fc.tops = []string{p}
+			peer := &c01WinPeer{ackDir: dirS2C, lateAck: 10, delay: 2300 * time.Millisecond}
+			if !fc.cfg.upload {
+				peer.ackDir = dirC2S
+			}
+			fc.cfg.hook = peer.hook
+		}
 		if fc.chunk > 0 {
 			var mu sync.Mutex
 			crng := rand.New(rand.NewSource(fc.seed + 1))
@@ -277,6 +368,14 @@ func genFidelity(c *ctx) {
 		}
 		fc.result = runTransfer(fc.cfg, fc.tops, dest)
 		r := fc.result
+		if fc.win {
+			w := r.wire[1]
+			if fc.cfg.upload {
+				w = r.wire[0]
+			}
+			shrunk, n := c01WinShrinkObserved(w)
+			fc.winObs = fmt.Sprintf("shrink-observed=%v data-lines=%d", shrunk, n)
+		}
 		// names shown to the user
 		shown := r.serverOut
 		if !fc.cfg.upload {
@@ -319,8 +418,15 @@ func genFidelity(c *ctx) {
 		c.count(fmt.Sprintf("shape:%d", fc.shape))
 		c.count(fmt.Sprintf("relays:%d", fc.cfg.relays))
 		c.count(fmt.Sprintf("tunnel:%v", fc.cfg.tunnel))
+		if fc.win {
+			c.count("windows-framing:" + fc.winObs)
+		}
 		if len(fc.diffs) > 0 {
 			key := "fidelity:" + strings.SplitN(fc.diffs[0], ":", 2)[0]
+			if fc.win {
+				key = "fidelity:windows-framing:" + strings.SplitN(fc.diffs[0], ":", 2)[0]
+				fc.diffs = append(fc.diffs, fc.winObs)
+			}
 			c.violate(key, "end-to-end transfer over a fault-free transport did not reproduce the source",
 				fc.desc+" :: "+strings.Join(fc.diffs, "; "))
 		}
